@@ -6,7 +6,7 @@ import Litestream.Gen.StateWrites
 completed since this DB object was opened": only then is a changed WAL salt
 treated as "restarted while nobody held the read lock" (repair of finding F2).
 That reading is sound only if nothing but a completed sync makes the field
-non-zero and `Close` resets it (repair of finding F1).  The inventory of writes
+non-zero and `Close` resets it (repair of finding F1), as does the run-time recovery of local state (repair of finding F3).  The inventory of writes
 is regenerated from the source on every run.
 -/
 namespace Litestream
@@ -17,6 +17,7 @@ def expectedStateWrites : List (String × String × String) := [
   ("syncLocked", "exec.state.syncedSinceCheckpoint", "true"),
   ("applySyncResult", "state.lastSyncedWALOffset", "result.newWALSize"),
   ("applySyncResult", "state.syncedToWALEnd", "result.syncedToWALEnd"),
+  ("newSyncExecutor", "db.syncState", "syncState{}"),
   ("applySyncExecutor", "db.syncState", "exec.state"),
   ("applySyncResult", "exec.state.lastSyncedWALOffset", "result.newWALSize"),
   ("applySyncResult", "exec.state.syncedToWALEnd", "result.syncedToWALEnd"),
@@ -33,10 +34,11 @@ theorem gen_offset_written_only_from_sync_result :
     ∀ w ∈ Gen.StateWrites.writes, (w.2.1 = "state.lastSyncedWALOffset" ∨ w.2.1 = "exec.state.lastSyncedWALOffset") →
       w.1 = "applySyncResult" ∧ w.2.2 = "result.newWALSize" := by decide
 
-/-- Whole-struct writes: `Close` zeroes the state; everything else copies an executor's state back. -/
+/-- Whole-struct writes: `Close` and the run-time recovery (repair of F3) zero the state; everything
+    else copies an executor's state back. -/
 theorem gen_whole_state_writes :
     ∀ w ∈ Gen.StateWrites.writes, (w.2.1 = "db.syncState" ∨ w.2.1 = "*state") →
-      (w.1 = "Close" ∧ w.2.2 = "syncState{}") ∨ w.2.2 = "exec.state" := by decide
+      ((w.1 = "Close" ∨ w.1 = "newSyncExecutor") ∧ w.2.2 = "syncState{}") ∨ w.2.2 = "exec.state" := by decide
 
 /-! ### What the inventory means: `fresh` is conservative
 
@@ -45,12 +47,14 @@ inductive MemEv where
   | opened                 -- NewDB / Open: zero value
   | syncResult (newWALSize : Nat)   -- applySyncResult(result)
   | closed                 -- Close: syncState{}
+  | recovered              -- newSyncExecutor after ResetLocalState (auto-recover): syncState{}
 deriving DecidableEq, Repr
 
 def memStep (_off : Nat) : MemEv → Nat
   | .opened => 0
   | .syncResult n => n
   | .closed => 0
+  | .recovered => 0
 
 def memRun (evs : List MemEv) : Nat := evs.foldl memStep 0
 
@@ -59,6 +63,7 @@ def sinceOpen : List MemEv → List Nat
   | [] => []
   | .opened :: _ => []
   | .closed :: _ => []
+  | .recovered :: _ => []
   | .syncResult n :: rest => n :: sinceOpen rest
 
 theorem memRun_snoc (evs : List MemEv) (e : MemEv) : memRun (evs ++ [e]) = memStep (memRun evs) e := by
@@ -79,6 +84,7 @@ theorem not_fresh_aux (rev : List MemEv) (h : rev.foldr (fun e acc => memStep ac
     cases e with
     | opened => simp [memStep] at h
     | closed => simp [memStep] at h
+    | recovered => simp [memStep] at h
     | syncResult n => exact ⟨n, by simp [sinceOpen], rfl⟩
 
 theorem not_fresh_means_synced_this_session (evs : List MemEv) (h : memRun evs ≠ 0) :
